@@ -29,6 +29,10 @@ ops (every op prints exactly one line):
   `bput <nonce> <content> <remote>`                  → `<batch>`
   `bconf <nonce> <val> <addr> <by> <ref> [<wire>]`   → `ok|notfound|noaddr|mismatch|badsig|dup|dupkey <batch>`
   `bgas <nonce> <g>`                                 → `ok|refused <batch>`
+  `bconfc <creator> <nonce> <val> <addr> <by> <ref> <wire>` → as `bconf`; the transaction that delivers the confirmation is
+                                                       created by account `<creator>` (any account), not by the orchestrator `<val>`
+  `bstore <nonce>`                                   → `<val/creator+…>` | `-`   records of the keyed confirmation store under the batch
+  `blocks <n>`                                       → `panic` | `<item> <item> …` | `-`   n blocks pass without a submission (`idleBlocks`)
   `fee <m> <c> <s> <g>`                              → `<r> <c> <s>` | `panic`
   `q <op …>`                                         → first word of the op's answer
 `ref` says which bytes were signed: `c` the item's current ones, `o<k>` the k-th distinct byte string
@@ -47,6 +51,8 @@ structure DState where
   s : State := {}
   hist : List (Nat × List SignBytes) := []
   bhist : List (Nat × List BBytes) := []
+  /-- skyway's keyed confirmation store (key = nonce + orchestrator), next to `Batch.confirms` -/
+  cstore : ConfStore := []
 
 def init : DState := {}
 
@@ -205,15 +211,24 @@ def stepSign (d : DState) (id v a b ref w : String) : DState × String :=
       ({ d with s := res.1 }, s!"{showSignRes res.2} {showItemOf res.1 id}")
   | _, _, _, _, _ => (d, "bad-op")
 
-def stepConfirm (d : DState) (n v a b ref w : String) : DState × String :=
+/-- `cr` = creator of the delivering transaction; `none`: the orchestrator itself -/
+def stepConfirm (d : DState) (cr : Option String) (n v a b ref w : String) : DState × String :=
   match parseNat? n, parseNat? v, parseNat? a, parseNat? b, parseWire? w with
   | some n, some v, some a, some b, some w =>
-    match resolveBRef d n ref with
-    | none => (d, "bad-op")
-    | some f =>
+    match resolveBRef d n ref, (match cr with | none => some v | some c => parseNat? c) with
+    | some f, some cr =>
       let res := confirm d.s n v a b f w
-      ({ d with s := res.1 }, s!"{showConfRes res.2} {showBatchOf res.1 n}")
+      let st := if res.2 == .ok then setBatchConfirm d.cstore n ⟨v, cr, a⟩ else d.cstore
+      ({ d with s := res.1, cstore := st }, s!"{showConfRes res.2} {showBatchOf res.1 n}")
+    | _, _ => (d, "bad-op")
   | _, _, _, _, _ => (d, "bad-op")
+
+/-- records found under a batch in the keyed store, sorted by orchestrator -/
+def showStore (st : ConfStore) (n : Nat) : String :=
+  let cs := (confirmsOf st n).foldl (fun acc x =>
+    let (lo, hi) := acc.partition (fun y => y.val ≤ x.val)
+    lo ++ [x] ++ hi) []
+  join "+" (cs.map fun c => s!"{c.val}/{c.creator}")
 
 /-- `n` consecutive `put`s with contents `content`, `content + 1`, … -/
 def putN : Nat → State → Kind → Nat → Nat → Nat → Nat → Bool → State
@@ -326,14 +341,28 @@ def stepRaw (d : DState) (args : List String) : DState × String :=
       let s' := putBatch d.s n c r
       ({ d with s := s' }, showBatchOf s' n)
     | _, _, _ => (d, "bad-op")
-  | ["bconf", n, v, a, b, ref] => stepConfirm d n v a b ref "c"
-  | ["bconf", n, v, a, b, ref, w] => stepConfirm d n v a b ref w
+  | ["bconf", n, v, a, b, ref] => stepConfirm d none n v a b ref "c"
+  | ["bconf", n, v, a, b, ref, w] => stepConfirm d none n v a b ref w
+  | ["bconfc", cr, n, v, a, b, ref, w] => stepConfirm d (some cr) n v a b ref w
   | ["bgas", n, g] =>
     match parseNat? n, parseNat? g with
     | some n, some g =>
       let res := updateBatchGas d.s n g
-      ({ d with s := res.1 }, (if res.2 then "ok " else "refused ") ++ showBatchOf res.1 n)
+      let st := if res.2 then deleteBatchConfirms d.cstore n else d.cstore
+      ({ d with s := res.1, cstore := st }, (if res.2 then "ok " else "refused ") ++ showBatchOf res.1 n)
     | _, _ => (d, "bad-op")
+  | ["bstore", n] =>
+    match parseNat? n with
+    | some n => (d, showStore d.cstore n)
+    | none => (d, "bad-op")
+  | ["blocks", n] =>
+    match parseNat? n with
+    | some n =>
+      if n > 0 && (endBlock d.s).2 then (d, "panic")
+      else
+        let s' := idleBlocks d.s n
+        ({ d with s := s' }, join " " (s'.queue.map showItem))
+    | none => (d, "bad-op")
   | ["fee", m, c, s, g] =>
     match parseInt? m, parseInt? c, parseInt? s, parseNat? g with
     | some m, some c, some s, some g =>
@@ -354,12 +383,44 @@ def step (d : DState) (args : List String) : DState × String :=
     let r := stepRaw d args
     (track r.1, r.2)
 
-/-- `C13B prune <delivered 0|1> <total> <vals a:s,…> <submissions a:h,…>` → sorted list of validators jailed by
+/-- one event of a message life (`C13B prune hist <event> <event> …`, fields separated by `/`), as ops of
+    the world machine of Props/C13:
+    `put/<kind>/<reqEst>` (ids are handed out 1, 2, … in the order of the puts), `snap/<total>/<a:s,…>` (a new current
+    snapshot), `ev/<id>/<val>/<h>` (accepted `MsgAddEvidence`), `pub/<id>`, `err/<id>` (`MsgSetPublicAccessData` /
+    `MsgSetErrorData`), `est/<id>/<val>/<value>` (`MsgAddMessageGasEstimates`), `eb` (`CheckAndProcessEstimatedMessages`;
+    the relayer-fee environment is not transmitted, so WHICH estimate is elected is not compared here — C06 does that),
+    `rm/<id>` (`DeleteJob`), `prune/<id>` (`PruneJob`), and `sig/<id>/<val>` (an accepted `MsgAddMessagesSignatures`: it
+    rewrites only `SignData`; no world op).  The answer is `pruneLog`: the victims of every prune, in order. -/
+def parseLifeEvent? (s : String) : Option (List Paloma.C13.WOp) :=
+  match s.splitOn "/" with
+  | ["put", k, r] => do pure [.queue (.put (← parseKind? k) 1 1 1 4 (← parseBool? r))]
+  | ["snap", t, vs] => do
+    let vs ← parsePairList? vs
+    pure [.queue (.setEnv { snapshot := some { vals := vs.map (fun p => ⟨p.1, p.2, []⟩), total := ← parseNat? t } })]
+  | ["ev", i, v, h] => do pure [.queue (.addEvidence (← parseNat? i) (← parseNat? v) (← parseNat? h))]
+  | ["pub", i] => do pure [.queue (.setPublic (← parseNat? i))]
+  | ["err", i] => do pure [.queue (.setError (← parseNat? i))]
+  | ["est", i, v, x] => do pure [.queue (.addEstimate (← parseNat? i) (← parseNat? v) (← parseNat? x))]
+  | ["eb"] => some [.queue .endBlock]
+  | ["rm", i] => do pure [.queue (.remove (← parseNat? i))]
+  | ["prune", i] => do pure [.prune (← parseNat? i)]
+  | ["sig", i, v] => do
+    let _ ← parseNat? i
+    let _ ← parseNat? v
+    pure []
+  | _ => none
+
+/-- `C13B prune hist <event> …` → `pruneLog` of the message life (see `parseLifeEvent?`).
+    `C13B prune <delivered 0|1> <total> <vals a:s,…> <submissions a:h,…>` → sorted list of validators jailed by
     `PruneJob`: nobody for a message without delivery/error report (`punishValidatorForMissingRelay`)
     and nobody when the evidence does reach consensus (`jailValidatorsWhichMissedAttestation` bails
     out); otherwise `pruneJail` over the evidence suppliers. -/
 def stepPrune (args : List String) : String :=
   match args with
+  | "prune" :: "hist" :: evs =>
+    match evs.mapM parseLifeEvent? with
+    | some ops => " ".intercalate ((Paloma.C13.pruneLog Paloma.C13.World.init ops.flatten).map (fun l => showNatList (sortNat l)))
+    | none => "bad-op"
   | ["prune", dl, t, vs, es] =>
     match parseBool? dl, parseNat? t, parsePairList? vs, parsePairList? es with
     | some dl, some t, some vs, some es =>
